@@ -206,6 +206,15 @@ def A10_descending_contract(repo, clause):
     obs.extend(_reindex_reached(repo, clause, callee, P, loops))
     obs.extend(_row_indices_original(repo, clause, callee))
     obs.extend(_order_beliefs(repo, clause, callee, P))
+    for lp_ in loops:
+        for b_ in [x for x in ast.walk(lp_) if isinstance(x, ast.Break)]:
+            if any(isinstance(a_, (ast.For, ast.While)) and a_ is not lp_ and lp_ in list(callee.ancestors(a_)) for a_ in callee.ancestors(b_)):
+                continue
+            gs_ = [ast.unparse(t)[:50] for t, pol, k in norm_guards(callee, b_, stop=lp_)]
+            obs.append(Ob("A10", clause, callee, b_, False,
+                          "the re-index loop over `%s` STOPS early (break under %s): that is sound only if the remaining deleted indices are larger than the current one, "
+                          "but every caller passes the list in DESCENDING order - the smaller deleted indices that follow are never applied and surviving terms keep stale atom numbers" % (P, gs_ or "no condition"),
+                          slot="reindex-break", positive=True))
     for c in anys:
         obs.append(Ob("A10", clause, callee, c, call_name(c) == "any",
                       "a term is dropped when %s of its atoms is in the deleted set (must be ANY)" % call_name(c).upper(), slot="drop-quantifier"))
@@ -1192,6 +1201,17 @@ def A18_cli_wiring(repo, clause):
                 lits = [e.value for e in n.comparators[0].elts if isinstance(e, ast.Constant)]
         dt = dispatch_types(f)
         ok = lits is not None and all(s.startswith(".") and s[1:] in dt for s in lits)
+        # the test reads the LAST suffix of the path, as the dispatcher's os.path.splitext does
+        for n in fn.own_nodes():
+            if isinstance(n, ast.Compare) and isinstance(n.ops[0], (ast.In, ast.NotIn)) and var in ast.unparse(n.left) and isinstance(n.comparators[0], (ast.List, ast.Tuple, ast.Set)):
+                l_ = n.left
+                is_suffix = isinstance(l_, ast.Attribute) and l_.attr == "suffix" and isinstance(l_.value, ast.Name) and l_.value.id == var
+                other_suffix = (not is_suffix) and "suffixes" in ast.unparse(l_)
+                obs.append(Ob("A18", clause, fn, n, is_suffix,
+                              "%s file type is decided by `%s`%s" % (which, ast.unparse(l_), "" if is_suffix else (
+                                  ": NOT the last suffix - for a name with an extra dot (out.run2.cif) the command line and the dispatcher (os.path.splitext) disagree, the file goes through the ASE writer and loses charges and terms"
+                                  if other_suffix else " (not the plain .suffix)")),
+                              slot="suffix-attr:%s" % which, positive=other_suffix, undecided=not is_suffix and not other_suffix))
         obs.append(Ob("A18", clause, fn, fn.node, ok, "%s suffixes %s are all dispatched by Atoms.%s (%s)" % (which, lits, f.name, sorted(dt)),
                       construct="%s.suffix in %s" % (var, lits), slot="suffix:%s" % which, positive=lits is not None and bool(dt)))
     return obs
@@ -1825,6 +1845,21 @@ def A18d_option_decisions(repo, clause):
     ch = [n for n in fn.own_nodes() if isinstance(n, ast.Assign) and isinstance(n.targets[0], ast.Attribute) and n.targets[0].attr == "charges"]
     if ch:
         stages.append(("charge-override", ch[0], ["chargefile"], lambda g: g["chargefile"]))
+    uc = [n for n in fn.own_nodes() if isinstance(n, ast.Assign) and isinstance(n.targets[0], ast.Attribute) and n.targets[0].attr == "cell" and "extract_uc_path" in ast.unparse(n.value)]
+    if uc and "extract_uc_path" in fn.params:
+        stages.append(("extract-uc", uc[0], ["extract_uc_path"], lambda g: g["extract_uc_path"]))
+    # a stage may depend on its option only: an additional data-dependent condition makes the command line differ from the API sequence for some inputs
+    for name, node, opts, want in stages:
+        for t, pol, k in norm_guards(fn, node):
+            parts = t.values if isinstance(t, ast.BoolOp) else [t]
+            names_t = {x.id for x in ast.walk(t) if isinstance(x, ast.Name)}
+            if not names_t & set(opts):
+                continue
+            extra_ = [p_ for p_ in parts if not ({x.id for x in ast.walk(p_) if isinstance(x, ast.Name)} & set(opts))]
+            if extra_ and isinstance(t, ast.BoolOp) and isinstance(t.op, ast.And):
+                obs.append(Ob("A18d", clause, fn, node, False,
+                              "stage `%s` additionally requires `%s`: with the option given, the stage is silently skipped for inputs where that is false, which the API sequence does not do" % (name, ast.unparse(extra_[0])[:60]),
+                              slot="stage-extra-condition:%s" % name, positive=True))
     floor("A18d", "optional stages of the command line", len(stages), 5)
     for name, node, opts, want in stages:
         wrong = []
